@@ -37,10 +37,13 @@ def mk(name, asz, rsz, rw, autoneg, dflt, ro_extra=(), big=False):
 def targets(tier):
     ts = [mk("spireg_a1_r2", 1, 2, [1], True, 1),
           mk("spireg_a7_r8", 7, 8, [2, 3, 0x7f], True, 0xA5, ro_extra=[(5, 0x3C)], big=True),
-          mk("spireg_a15_r32", 15, 32, [1, 0x1234, 0x7fff], True, 0, ro_extra=[(7, 0xDEADBEEF)], big=True)]
+          mk("spireg_a15_r32", 15, 32, [1, 0x1234, 0x7fff], True, 0, ro_extra=[(7, 0xDEADBEEF)], big=True),
+          # command wider than the data word: the bit counter must be sized for max(word_size, command_size)
+          mk("spireg_a2_r1", 2, 1, [3], True, 1),
+          mk("spireg_a15_r8", 15, 8, [1, 0x7ffe], True, 0x5A, ro_extra=[(9, 0xC3)], big=True)]
     if tier != "quick":
         ts += [mk("spireg_a1_r1_two", 1, 1, [0, 1], False, 1),
-               mk("spireg_a2_r1", 2, 1, [3], True, 1),
+               mk("spireg_a3_r2", 3, 2, [5], False, 2),
                mk("spireg_a2_r3", 2, 3, [1, 2], True, 5, big=True),
                mk("spireg_a3_r5", 3, 5, [4, 6], False, 0x15, ro_extra=[(1, 9)], big=True),
                mk("spireg_a7_r32", 7, 32, [0x10, 0x11], True, 0xFFFFFFFF, big=True)]
@@ -157,8 +160,8 @@ ASSUMPTIONS = [
     "claim it earlier); a host sampling on the rising edge needs the corresponding set-up margin",
     "register map: memory-backed registers created with add_register (reset value 0, size = register_size) and constant read-only "
     "registers (including the size auto-negotiation register 0); externally supplied value/strobe signals are not modelled",
-    "R tie configuration: address_size 1, register_size 2, memory register at 1, auto-negotiation register 0, default 1 "
-    "(thorough tier: also (1,1) with two memory registers and no auto-negotiation, and (2,1) with a register at 3); correspondence at (7,8) and (15,32) -- the sizes the docstrings and LUNA's debug interface use -- "
+    "R tie configurations: address_size 1, register_size 2, memory register at 1, auto-negotiation register 0, default 1; and address_size 2, register_size 1, register at 3 (command wider than the data word, so the shared bit counter must be sized for the command) "
+    "(thorough tier: also (1,1) with two memory registers and no auto-negotiation, and (2,1) with a register at 3); correspondence at (7,8), (15,8) and (15,32) -- the sizes the docstrings and LUNA's debug interface use -- "
     "(thorough tier: also (2,3), (3,5), (7,32))",
 ]
 LEVEL_TEXT = (
@@ -176,7 +179,7 @@ LEVEL_TEXT = (
 LEVEL_NOTE = (
     "Trusted: Coq kernel + vm_compute, Amaranth elaboration to NIR, nir2coq.py/Netlist.v (validated each run against Amaranth's simulator). "
     "The unbounded theorems are about the hand model; they reach the code through the lock-step tie at one small configuration (all pin "
-    "histories) and through simulator correspondence at (7,8) and (15,32). Aborts in the middle of a clock pulse are covered by the general "
+    "histories) and through simulator correspondence at (7,8), (15,8) and (15,32). Aborts in the middle of a clock pulse are covered by the general "
     "safety theorem, the lock-step tie and correspondence, not by a transaction-shaped theorem. The unchanged tree satisfies the property.")
 TECHNIQUE = ("Rocq proof: phase invariants + induction over host transactions on a parametric FSM/shift-register model, general safety "
              "invariant, certified product-reachability against the netlist regenerated from source + simulator correspondence")
